@@ -160,8 +160,16 @@ class PreprocessorData:
     def get_result_ops_and_labels(self) -> Tuple[OpsQueue, LabelsDict]:
         return self.result_ops, self.labels
 
-    def insert_segment(self, next_segment_start: int) -> None:
-        self.labels[f'{wflip_start_label}{self.curr_segment_index}'] = self.curr_address
+    def insert_segment(self, next_segment_start: int, code_position: CodePosition) -> None:
+        wflip_area_label = f'{wflip_start_label}{self.curr_segment_index}'
+        if wflip_area_label in self.labels:
+            macro_resolve_error(
+                self.curr_tree,
+                f'label "{wflip_area_label}" (declared on {self.labels_code_positions[wflip_area_label]}) '
+                f'is reserved for the segment statement on {code_position}',
+            )
+        self.labels_code_positions[wflip_area_label] = code_position
+        self.labels[wflip_area_label] = self.curr_address
         self.curr_segment_index += 1
 
         self.patch_last_wflip_address()
@@ -370,7 +378,7 @@ def resolve_macro_aux(
         elif isinstance(op, Segment):
             op = op.eval_new(params_dict)
             next_segment_start = get_next_segment_start(op, preprocessor_data)
-            preprocessor_data.insert_segment(next_segment_start)
+            preprocessor_data.insert_segment(next_segment_start, op.code_position)
 
         elif isinstance(op, Reserve):
             op = op.eval_new(params_dict)
